@@ -47,6 +47,7 @@ def run(idx, rep, tier):
     r3(idx, rep)
     r4(idx, rep)
     r5(idx, rep)
+    function_matches_table(idx, rep, "R5")
     r6(idx, rep)
     rep.stats["exhaustive"] = True
 
@@ -356,6 +357,80 @@ def r5(idx, rep):
             if not full and (signalled or am):
                 bad = bad or f"{mism}/{nsets} argsets mismatch: an error is signalled although one argset matched"
     rep.check(bad is None, "R5", f"{fa.file}::Args.handle_errors_if table", bad or "", K.where(fa, fa.node))
+
+
+def function_matches_table(idx, rep, rid):
+    """Function.matches: validation-mode effects of an argument mismatch, the frozen/onmatch gates, the trap"""
+    fi = idx.method("Function", "matches")
+    rep.analysed(fi)
+    bad = {}
+    n = 0
+    import itertools
+    for frozen, onmatch, has_args, matched, args_match, stop_on, fail_on, mve, decide_raises in itertools.product(
+            (False, True), (True, False), (True,), (False, True), (True, False, None), (None, True, False), (None, True, False), (None, True, False), (False, True)):
+        if frozen and (matched or args_match is not True or stop_on or fail_on or mve is not None or decide_raises):
+            continue  # one frozen row per onmatch value is enough
+        st = {"self.match": None, "self.args": Obj("ARGS"), "ARGS.matched": matched, "ARGS.args_match": args_match,
+              "self.matcher.csvpath.stop_on_validation_errors": stop_on, "self.matcher.csvpath.fail_on_validation_errors": fail_on,
+              "self.matcher.csvpath.match_validation_errors": mve, "self.name": "fn", "self.FOCUS": "x"}
+
+        def args_matches(i, c, r, a, k, args_match=args_match):
+            i.record_call("args.matches")
+            i.store["ARGS.args_match"] = args_match
+            i.store["ARGS.matched"] = True
+
+        def decide(i, c, r, a, k, decide_raises=decide_raises):
+            i.record_call("_decide_match")
+            if decide_raises:
+                raise Raised("ValueError")
+            i.store["self.match"] = "DECIDED"
+
+        it = Interp(idx, types={"self": "Function"}, unknown_calls="residual",
+                    handlers={"self.do_frozen": lambda i, c, r, a, k, frozen=frozen: frozen, "self.do_onmatch": lambda i, c, r, a, k, onmatch=onmatch: onmatch,
+                              "self.sibling_values": lambda i, c, r, a, k: ["v"], "ARGS.matches": args_matches, "self._decide_match": decide,
+                              "self.matcher.csvpath.stop": lambda i, c, r, a, k: i.record_call("stop"),
+                              "self.default_match": lambda i, c, r, a, k: "DEFAULT", "self._noop_value": lambda i, c, r, a, k: "NOOP",
+                              "self.my_expression.handle_error": lambda i, c, r, a, k: i.record_call("handle_error"),
+                              "self.to_json": lambda i, c, r, a, k: "{}"})
+        ps = it.run_all(fi, args={"skip": []}, store=st)
+        n += 1
+        if len(ps) != 1:
+            bad.setdefault("deterministic", f"Function.matches consults something outside the model: {ps[0].summary()['choices'][:3]}")
+            continue
+        p = ps[0]
+        cfg = dict(frozen=frozen, onmatch=onmatch, args_matched_before=matched, args_match=args_match, stop=stop_on, fail=fail_on, match=mve, raises=decide_raises)
+        if p.result[0] != "return":
+            bad.setdefault("trap", f"{cfg}: an exception escapes Function.matches ({p.result})")
+            continue
+        stops = len(p.calls("stop"))
+        fails = p.sets("self.matcher.csvpath.is_valid")
+        decided = len(p.calls("_decide_match"))
+        if frozen:
+            if stops or fails or decided or p.result[1] != "NOOP":
+                bad.setdefault("frozen", f"{cfg}: a frozen function acts (stop={stops}, verdict stores={fails}, decide={decided}, returns {p.result[1]!r})")
+            continue
+        if not onmatch:
+            if stops or fails or decided or p.result[1] != "DEFAULT":
+                bad.setdefault("onmatch", f"{cfg}: an onmatch function on a non-matching line acts (stop={stops}, verdict={fails}, decide={decided}, returns {p.result[1]!r})")
+            continue
+        mismatch = args_match is False
+        if stops != (1 if (mismatch and stop_on) else 0):
+            bad.setdefault("stop", f"{cfg}: stop() called {stops}x; validation-mode 'stop' stops the run exactly on an argument mismatch")
+        if (fails == [False]) != bool(mismatch and fail_on) or any(v is not False for v in fails):
+            bad.setdefault("fail", f"{cfg}: verdict stores {fails}; validation-mode 'fail' fails the file exactly on an argument mismatch")
+        if mismatch and mve is not None:
+            if decided or p.result[1] is not mve:
+                bad.setdefault("match", f"{cfg}: returns {p.result[1]!r}, _decide_match called {decided}x; validation-mode (no-)match decides the vote of a mismatching component")
+        else:
+            if decided != 1:
+                bad.setdefault("decide", f"{cfg}: _decide_match called {decided}x")
+            elif decide_raises and not p.calls("handle_error"):
+                bad.setdefault("trap", f"{cfg}: the exception raised by the function is not handed to its expression")
+        if not matched and len(p.calls("args.matches")) != 1:
+            bad.setdefault("validate", f"{cfg}: argument validation ran {len(p.calls('args.matches'))}x")
+    for aspect in ("deterministic", "trap", "frozen", "onmatch", "stop", "fail", "match", "decide", "validate"):
+        rep.check(aspect not in bad, rid, f"{fi.file}::Function.matches table {aspect}", bad.get(aspect, f"{n} rows"), K.where(fi, fi.node))
+    rep.stats["table_rows"] = rep.stats.get("table_rows", 0) + n
 
 
 def _raise_children(interp, call, recv, args, kwargs):
